@@ -107,7 +107,7 @@ class ThrRun(sbx.SbxRun):
         g = self.sched.threads[0]
         ev0, timers0, now0 = g.events, self.sched.timer_fired, world.CLOCK.now
         land0 = len(self.sched.async_landings)
-        sent0 = self.sched.async_sent
+        sent0 = self.sched.async_sent_by_grader
         # when does the timer fire, in grader events?  the scheduler records it
         self.sched.probe.pop('timer_at', None)
         o = super().do_op(index, op)
@@ -118,7 +118,7 @@ class ThrRun(sbx.SbxRun):
         if ta is not None:
             o['g_events_after_timer'] = g.line_events - ta[0]
             o['virtual_after_timer'] = world.CLOCK.now - ta[1]
-        o['async_sent'] = self.sched.async_sent - sent0
+        o['async_sent'] = self.sched.async_sent_by_grader - sent0      # sends by the grader thread: "pedal gave up on this op"
         o['landings'] = [list(x) for x in self.sched.async_landings[land0:]]
         o['threads_alive_after'] = [t.index for t in self.sched.alive()]
         o['boundary'] = self.boundary('after-op-%d' % index)
